@@ -26,7 +26,10 @@
 (j) strict kex (prefix truncation): _process_kexinit[record] (C06's contract object registered under C01) - strict kex
     is switched on exactly when the PEER's first KEXINIT carries the marker of the peer's role; _recv_packet: no
     IGNORE/UNIMPLEMENTED/DEBUG reaches a handler before the first keys under strict kex; bounded native grid.
-    (f) is stated on the meaning of the AES-GCM library calls (one-shot AESGCM and the Cipher/GCM context API).
+    (f) is stated on the meaning of the AES-GCM library calls (one-shot AESGCM and the Cipher/GCM context API); the
+    GCMCipher class view is completed from the source of __init__ (fields_from_init), so extra state is analysed.
+(k) _get_extra_kex_algs: our KEXINIT offers the strict-kex marker of OUR role in every state (and never the peer's);
+    _send_kexinit (C03's contract object registered under C01): the kex list sent is expand_kex_algs(..) ++ that list.
 """
 import z3
 from pyvc.contracts import *
@@ -853,6 +856,56 @@ GCM_LIB = {'AESGCM': aesgcm_ctor, 'AESGCM().decrypt': aesgcm_decrypt, 'AESGCM.de
            'CipherObj.decryptor': _aead_ctx(False), 'CipherObj.encryptor': _aead_ctx(True),
            'AEADCtx.authenticate_additional_data': ctx_aad, 'AEADCtx.update': ctx_update,
            'AEADCtx.finalize': _ctx_finalize(False), 'AEADCtx.finalize_with_tag': _ctx_finalize(True)}
+
+
+def fields_from_init(module, cls, declared):
+    """Class view taken from the source: every `self.X = <expr>` of `cls.__init__` (read from the tree under
+    analysis) whose type can be told from the expression - an annotated parameter, a bytes slice / index,
+    int.from_bytes / len / int arithmetic, a literal - is added to the declared fields, so that a body which keeps
+    more (or differently shaped) state than today's is still analysed instead of being `unsupported`."""
+    import ast
+    from pyvc import extract
+    out = dict(declared)
+    try:
+        fn = extract.get_module(module).get_function(cls + '.__init__')
+    except Exception:
+        return out
+    ann = {a.arg: ast.unparse(a.annotation) for a in fn.args.args if a.annotation is not None}
+    known = {n: t for n, t in ann.items() if t in ('bytes', 'int', 'str', 'bool')}
+
+    def typ(e):
+        if isinstance(e, ast.Constant):
+            return {bytes: 'bytes', bool: 'bool', int: 'int', str: 'str'}.get(type(e.value))
+        if isinstance(e, ast.Name):
+            return known.get(e.id)
+        if isinstance(e, ast.Attribute) and isinstance(e.value, ast.Name) and e.value.id == 'self':
+            return out.get(e.attr) if out.get(e.attr) in ('bytes', 'int', 'str', 'bool') else None
+        if isinstance(e, ast.Subscript) and typ(e.value) == 'bytes':
+            return 'bytes' if isinstance(e.slice, ast.Slice) else 'int'
+        if isinstance(e, ast.Call) and ast.unparse(e.func) in ('int.from_bytes', 'len', 'int'):
+            return 'int'
+        if isinstance(e, ast.Call) and ast.unparse(e.func) in ('bytes', 'bytearray'):
+            return 'bytes'
+        if isinstance(e, ast.BinOp):
+            l, r = typ(e.left), typ(e.right)
+            return l if l == r and l in ('int', 'bytes') else None
+        return None
+
+    for node in ast.walk(fn):
+        tgt, val = None, None
+        if isinstance(node, ast.Assign) and len(node.targets) == 1:
+            tgt, val = node.targets[0], node.value
+        elif isinstance(node, ast.AnnAssign) and node.value is not None:
+            tgt, val = node.target, node.value
+        if isinstance(tgt, ast.Attribute) and isinstance(tgt.value, ast.Name) and tgt.value.id == 'self' \
+                and tgt.attr not in out:
+            t = typ(val)
+            if t:
+                out[tgt.attr] = t
+    return out
+
+
+GCM_CLASSES['GCMCipher'] = fields_from_init('crypto.cipher', 'GCMCipher', GCM_CLASSES['GCMCipher'])
 
 
 def gcm_inv(c):
